@@ -270,7 +270,7 @@ func c03r3(p *Prog, r *Reporter) {
 				return false
 			}
 			c := callOf(atom)
-			return c != nil && c.Common().StaticCallee() != nil && c.Common().StaticCallee().Name() == "Matches" && typeName(recvType(c.Common().StaticCallee())) == "archNode"
+			return c != nil && c.Common().StaticCallee() != nil && cname(c.Common().StaticCallee()) == "Matches" && typeName(recvType(c.Common().StaticCallee())) == "archNode"
 		}, InstrKill: loopAdvance}
 		mat.Run()
 		for _, b := range fn.Blocks {
@@ -278,7 +278,7 @@ func c03r3(p *Prog, r *Reporter) {
 				sel := ""
 				switch x := ins.(type) {
 				case *ssa.Call:
-					if sc := x.Common().StaticCallee(); sc != nil && sc.Name() == "Archetypes" && typeName(recvType(sc)) == "archNode" {
+					if sc := x.Common().StaticCallee(); sc != nil && cname(sc) == "Archetypes" && typeName(recvType(sc)) == "archNode" {
 						sel = "node.Archetypes()"
 					}
 				case *ssa.Lookup:
@@ -313,7 +313,7 @@ func c03r3(p *Prog, r *Reporter) {
 					if c == nil {
 						continue // from the target map (active by the map's invariant, C06.R2)
 					}
-					if c.Common().IsInvoke() || (c.Common().StaticCallee() != nil && c.Common().StaticCallee().Name() != "") {
+					if c.Common().IsInvoke() || (c.Common().StaticCallee() != nil && cname(c.Common().StaticCallee()) != "") {
 						base := apath(e)
 						am := &MustFlow{Fn: fn, EdgeGen: func(b *ssa.BasicBlock, k int) bool {
 							atom, holds, ok := edgeCond(b, k)
@@ -321,7 +321,7 @@ func c03r3(p *Prog, r *Reporter) {
 								return false
 							}
 							cc := callOf(atom)
-							return cc != nil && cc.Common().StaticCallee() != nil && cc.Common().StaticCallee().Name() == "IsActive" && apath(cc.Common().Args[0]) == base
+							return cc != nil && cc.Common().StaticCallee() != nil && cname(cc.Common().StaticCallee()) == "IsActive" && apath(cc.Common().Args[0]) == base
 						}}
 						am.Run()
 						r.Check(am.Before(call), name, "collect table from a node's list", p.Pos(call.Pos()), "a table taken from a node's table list is added to the result only if IsActive()")
@@ -421,6 +421,32 @@ func c03r4(p *Prog, r *Reporter) {
 			arch, start, end := args[1], args[3], args[4]
 			okS, whyS := startProvenance(p, fn, arch, start)
 			okE, whyE := endProvenance(p, fn, arch, end)
+			// a helper that receives the table and its start index: judge the provenance at its call sites
+			if pa, ok := arch.(*ssa.Parameter); ok && !okS {
+				if ps, ok := start.(*ssa.Parameter); ok && pa.Parent() == fn && ps.Parent() == fn {
+					nsites, allOK, why := 0, true, ""
+					for _, g := range p.Funcs {
+						for _, cs := range callsIn(g) {
+							if !isCallTo(cs, fn) {
+								continue
+							}
+							nsites++
+							ok2, w2 := startProvenance(p, g, cs.Common().Args[paramIndex(pa)], cs.Common().Args[paramIndex(ps)])
+							if !ok2 {
+								allOK, why = false, "at the call in "+p.FuncName(g)+": "+w2
+							}
+						}
+					}
+					if nsites > 0 && allOK {
+						okS, whyS = true, fmt.Sprintf("table and start are parameters; at all %d call sites they come from the creating primitive's returned pair", nsites)
+						if lenCallOn(end, arch) != nil {
+							okE, whyE = true, "end is Len() of the table parameter, read after the creating primitive has returned (call sites checked)"
+						}
+					} else if nsites > 0 {
+						whyS = why
+					}
+				}
+			}
 			r.Check(okS, name, "batch range start", p.Pos(site.Pos()), whyS)
 			r.Check(okE, name, "batch range end", p.Pos(site.Pos()), whyE)
 		}
@@ -430,7 +456,7 @@ func c03r4(p *Prog, r *Reporter) {
 // lenCallOn: v is arch.Len() on the table `arch` (same path).
 func lenCallOn(v ssa.Value, arch ssa.Value) *ssa.Call {
 	c := callOf(stripConvs(v))
-	if c == nil || c.Common().StaticCallee() == nil || c.Common().StaticCallee().Name() != "Len" || typeName(recvType(c.Common().StaticCallee())) != "archetype" {
+	if c == nil || c.Common().StaticCallee() == nil || cname(c.Common().StaticCallee()) != "Len" || typeName(recvType(c.Common().StaticCallee())) != "archetype" {
 		return nil
 	}
 	if apath(c.Common().Args[0]) != apath(arch) {
@@ -676,7 +702,7 @@ func derivesFromField(v ssa.Value) string {
 
 func callsNodeMatches(fn *ssa.Function) bool {
 	for _, site := range callsIn(fn) {
-		if sc := site.Common().StaticCallee(); sc != nil && sc.Name() == "Matches" && typeName(recvType(sc)) == "archNode" {
+		if sc := site.Common().StaticCallee(); sc != nil && cname(sc) == "Matches" && typeName(recvType(sc)) == "archNode" {
 			return true
 		}
 	}
@@ -811,7 +837,7 @@ func c03r7(p *Prog, r *Reporter) {
 		return
 	}
 	for _, fn := range fp.funcs {
-		if fn.Name() != "wrapBad" && fn.Name() != "wrapGood" {
+		if cname(fn) != "wrapBad" && cname(fn) != "wrapGood" {
 			continue
 		}
 		tmp := &Reporter{p: p, rule: r.rule}
@@ -822,7 +848,7 @@ func c03r7(p *Prog, r *Reporter) {
 				fired = true
 			}
 		}
-		if fn.Name() == "wrapBad" {
+		if cname(fn) == "wrapBad" {
 			r.Check(fired, "fixture.wrapBad", "rule fires on `idx <= end-1`", "checker/testdata/fixture/fixture.go", "the wrapping comparison in the fixture is reported")
 		} else {
 			r.Check(!fired, "fixture.wrapGood", "rule is silent on guarded `end-1`", "checker/testdata/fixture/fixture.go", "a subtraction under `end > 0` is accepted")
